@@ -34,6 +34,14 @@ func init() {
 			"returned proof hashes are filled in the order of ProofPositions applied to a sorted copy of those same targets (canonical order). R02b: the request order never " +
 			"reaches ProofPositions. R02c: a hash that cannot be read makes the prover return an error, never a proof with a hole.",
 		NotDecided: "that positions are the true ones, that the proof verifies, equality of the two provers' outputs, that every tracked leaf set is provable.",
-		Rules:      []RuleDef{{ID: "R02", Statement: "order and completeness discipline of the provers", Run: runC02}},
+		Rules: []RuleDef{{ID: "R02", Statement: "order and completeness discipline of the provers", Run: runC02},
+			{ID: "R02f", Statement: "a full pointer forest keeps every node it creates", Run: func(p *Program, r *Report) {
+				r.Rule("R02f", "FULL-KEEPS-CREATED: every node the pointer forest creates while applying a block is marked to be kept when the forest is full (the flag is stored from the forest's full setting, or set to true under a test of it)")
+				checkFullKeepsCreated(p, r, "R02f")
+			}},
+			{ID: "R02g", Statement: "nieces are pruned in pairs", Run: func(p *Program, r *Report) {
+				r.Rule("R02g", "PRUNE-IN-PAIRS: the pointer forest drops a niece only under a condition on the keep flags of both nieces (a proof needs both children of a node or neither)")
+				checkPruneInPairs(p, r, "R02g")
+			}}},
 	})
 }
